@@ -44,7 +44,7 @@ def replay_concrete(hmod, cfg, inputs, wall_s=60, complete=False):
         raise _Hang()
 
     old = signal.signal(signal.SIGPROF, _alarm)
-    signal.setitimer(signal.ITIMER_PROF, wall_s)  # CPU seconds of this process
+    signal.setitimer(signal.ITIMER_PROF, wall_s, 2.0)  # CPU seconds of this process; repeating (a raise inside a __del__ is swallowed)
     try:
         with shims.ConcreteRNG():
             import warnings
@@ -181,7 +181,7 @@ def _worker(hname, cfgs, opts, tasks, results, widx, stop_flags=None, path_count
                 n_local = 0
                 while stack:
                     if stop_flags is not None and stop_flags[ci]:
-                        key = "prefixes_cut_after_violation" if stop_flags[ci] == 1 else "prefixes_cut_at_path_budget"
+                        key = {1: "prefixes_cut_after_violation", 3: "prefixes_cut_after_path_timeout"}.get(stop_flags[ci], "prefixes_cut_at_path_budget")
                         st.counters[key] = st.counters.get(key, 0) + len(stack)
                         break
                     if t_deadline and time.time() > t_deadline:
@@ -190,7 +190,9 @@ def _worker(hname, cfgs, opts, tasks, results, widx, stop_flags=None, path_count
                     pfx, mb = stack.pop()
                     if beat is not None:
                         beat[widx] = time.time()
-                    cx = SymCtx(E, known_labels=set(st.cands.keys()))
+                    # a failure whose stored model lies far outside the moderate range (its float replay may be meaningless)
+                    # is not yet 'known': later paths failing the same check may supply a better model (at most 8 attempts)
+                    cx = SymCtx(E, known_labels=set(k for k, c in st.cands.items() if c.get("nice", True) or c["count"] >= 8))
                     shims.set_ctx(cx)
                     shims.rng_fresh()
                     shims.restore_state()
@@ -209,11 +211,13 @@ def _worker(hname, cfgs, opts, tasks, results, widx, stop_flags=None, path_count
                     profiling = st.paths == 0
                     if profiling:
                         sys.setprofile(_profile_functions(shims.src_root(), st.functions))
+                    cpu0 = time.process_time()
                     try:
                         status, alts = E.run_path(fn, pfx, mb)
                     finally:
                         if profiling:
                             sys.setprofile(None)
+                    st.counters["max_path_cpu_ms"] = max(st.counters.get("max_path_cpu_ms", 0), int(1000 * (time.process_time() - cpu0)))
                     st.paths += 1
                     st.decisions += len(E.taken)
                     st.max_inputs = max(st.max_inputs, len(E.inputs))
@@ -230,6 +234,11 @@ def _worker(hname, cfgs, opts, tasks, results, widx, stop_flags=None, path_count
                         m = E.any_model() if getattr(hmod, "HANG_IS_VIOLATION", False) else None
                         if m is not None:
                             cx._record("hang", "path exceeded %ss wall" % opts["path_wall_s"], m)
+                        if not getattr(hmod, "HANG_IS_VIOLATION", False) and stop_flags is not None:
+                            # a call of the code under test that does not return is C01's business; here the configuration is
+                            # given up at once (every further path of it would burn the same budget) and listed as not covered
+                            stop_flags[ci] = 3
+                            st.counters["config_given_up_after_path_timeout"] = 1
                     if E.maybe_infeasible:
                         st.maybe += 1
                     st.unknown.extend(cx.unknown_checks[:5])
@@ -244,7 +253,15 @@ def _worker(hname, cfgs, opts, tasks, results, widx, stop_flags=None, path_count
                             j["maybe_infeasible"] = bool(E.maybe_infeasible)
                             st.cands[key] = j
                         else:
-                            st.cands[key]["count"] += 1
+                            old_c = st.cands[key]
+                            old_c["count"] += 1
+                            if not old_c.get("nice", True):
+                                j = v.to_json()
+                                if v.nice:
+                                    more = old_c.get("alts", []) + [old_c["inputs"]]
+                                    old_c.update(inputs=j["inputs"], detail=j["detail"], nice=True, maybe_infeasible=bool(E.maybe_infeasible), alts=more[:3])
+                                elif len(old_c.get("alts", [])) < 3:
+                                    old_c.setdefault("alts", []).append(j["inputs"])
                     # engine validation: concrete replay of this path's model must agree
                     if status == "done" and not cx.candidates and not cx.repeats and not cx.ended_by_exception and (st.validated < opts["validate_first"] or st.done % opts["validate_every"] == 0):
                         m = cx._nice_model(strict_only=True)
@@ -381,7 +398,7 @@ def run_harness(hname, tier="quick", seed=0, only=None):
         c.setdefault("name", "cfg%d" % i)
     opts = {
         "timeout_ms": getattr(hmod, "TIMEOUT_MS", {}).get(tier, 5000),
-        "path_wall_s": getattr(hmod, "PATH_WALL_S", 600),
+        "path_wall_s": getattr(hmod, "PATH_WALL_S", 150 if tier == "quick" else 600),
         "validate_first": getattr(hmod, "VALIDATE_FIRST", 2),
         "validate_every": getattr(hmod, "VALIDATE_EVERY", 97),
         "nproc": NPROC,
@@ -426,6 +443,14 @@ def run_harness(hname, tier="quick", seed=0, only=None):
                 elif beat[w] and now - beat[w] > stall_s:
                     problem = "worker %d made no progress for %ds (stuck in a solver call)" % (w, int(now - beat[w]))
             if problem:
+                try:  # a worker that ended with an exception has left its traceback in the result queue
+                    while True:
+                        kind, widx, out, es = results.get(timeout=0.2)
+                        if kind == "error":
+                            problem += " | worker %s: %s" % (widx, str(out)[-700:])
+                            break
+                except Exception:  # noqa
+                    pass
                 for p in procs:
                     if p.is_alive():
                         p.kill()
@@ -479,12 +504,18 @@ def run_harness(hname, tier="quick", seed=0, only=None):
             m["samples"] = (m["samples"] + st["samples"])[:2]
             m["functions"] = sorted(set(m["functions"]) | set(st["functions"]))
             for k, v in st["counters"].items():
-                m["counters"][k] = m["counters"].get(k, 0) + v
+                m["counters"][k] = max(m["counters"].get(k, 0), v) if k.startswith("max_") else m["counters"].get(k, 0) + v
             have = {(c["label"], c.get("exc")): c for c in m["cands"]}
             for c in st["cands"]:
                 key = (c["label"], c.get("exc"))
                 if key in have:
-                    have[key]["count"] += c["count"]
+                    h = have[key]
+                    h["count"] += c["count"]
+                    if c.get("nice", True) and not h.get("nice", True):
+                        alts = ([h["inputs"]] + h.get("alts", []) + c.get("alts", []))[:3]
+                        h.update(inputs=c["inputs"], detail=c["detail"], nice=True, maybe_infeasible=c.get("maybe_infeasible", False), alts=alts)
+                    else:
+                        h["alts"] = (h.get("alts", []) + [c["inputs"]] + c.get("alts", []))[:3]
                 else:
                     m["cands"].append(c)
 
@@ -517,6 +548,16 @@ def run_harness(hname, tier="quick", seed=0, only=None):
                 else:
                     unreplayed.append(rec)
                 continue
+            if not ok:
+                # other paths failing the same check supplied further models: any of them that reproduces will do
+                for alt in cand.get("alts", []):
+                    res2 = replay_concrete(hmod, cfg, alt, wall_s=getattr(hmod, "REPLAY_WALL_S", 60))
+                    if res2["status"] in ("ok", "hang") and reproduces(res2, cand["label"], cand.get("exc")):
+                        ok, res = True, res2
+                        rec["inputs"] = alt
+                        rec["concrete_failures"] = res2["failures"][:5]
+                        rec["replay_status"] = res2["status"]
+                        break
             if not ok and hasattr(hmod, "refine_counterexample"):
                 # the solver's model may be spurious w.r.t. abstracted functions: let the harness look for a
                 # concrete witness near it; only a concretely reproduced input is ever reported
@@ -626,6 +667,8 @@ def run_harness(hname, tier="quick", seed=0, only=None):
     incomplete = {"unknown_checks": unknown_checks, "solver_unknown": eng_stats["unknown"], "paths_maybe_infeasible": tot["maybe"],
                   "path_timeouts_inconclusive": hang_incon, "prefixes_dropped_at_deadline_or_path_budget": dropped,
                   "configurations_cut_at_path_budget": {"budget_paths_per_configuration": opts.get("path_budget"), "names": cut_cfgs}}
+    incomplete["configurations_given_up_after_a_path_exceeded_the_cpu_limit"] = {"limit_s": opts["path_wall_s"], "names": [cfgs[ci]["name"] for ci, m in sorted(merged.items()) if m["counters"].get("config_given_up_after_path_timeout", 0)]}
+    incomplete["max_cpu_s_of_one_path"] = max([m["counters"].get("max_path_cpu_ms", 0) for m in merged.values()] or [0]) / 1000.0
     samples = []
     for ci in sorted(merged):
         samples.extend(merged[ci]["samples"][:1])
@@ -637,7 +680,8 @@ def run_harness(hname, tier="quick", seed=0, only=None):
     counters = {}
     for m in merged.values():
         for k, v in m["counters"].items():
-            counters[k] = counters.get(k, 0) + v
+            counters[k] = max(counters.get(k, 0), v) if k.startswith("max_") else counters.get(k, 0) + v
+
     ev = {
         "property_id": prop,
         "tier": tier,
@@ -667,6 +711,8 @@ def run_harness(hname, tier="quick", seed=0, only=None):
             "reachability_twins_failed_as_expected": len(twins_ok),
             "known_findings_hit": sorted(seen),
             "unreplayed_counterexamples": len(unreplayed),
+            "unreplayed_samples": [{"config": u["cfg"]["name"], "label": u["label"], "detail": str(u.get("detail"))[:300], "inputs": u.get("inputs"),
+                                    "replay_status": u.get("replay_status"), "concrete_failures": u.get("concrete_failures"), "why": u.get("why")} for u in unreplayed[:3]],
             "exploration_restarts": restarts,
             "per_config": per_cfg if len(per_cfg) <= 400 else {"note": "%d configs" % len(per_cfg)},
             "extra": getattr(hmod, "EXTRA_EVIDENCE", {}),
